@@ -173,6 +173,17 @@ func corpus() []*timing.Scenario {
 		s.Steps = steps([]int{20, 60}, []int{5, 40})
 		s.Ending = "reset"
 		add(s)
+		// an encoded stream (Content-Encoding: gzip / br from a compressing front end) and a content type written the way
+		// some servers write it: both are streams like any other
+		for _, enc := range []string{"gzip", "br"} {
+			s = base(e, auto, sse)
+			s.Enc = enc
+			s.Steps = steps([]int{20, 400, 400}, []int{40, 60, 64})
+			add(s)
+		}
+		s = base(e, auto, "Text/Event-Stream; Charset=UTF-8")
+		s.Steps = steps([]int{20, 400, 400}, []int{40, 60, 64})
+		add(s)
 		// proxy.stream_buffer_size below the default (the documentation's advice for a faster first token): events that fill
 		// the buffer exactly, or a whole number of times, followed by a long pause
 		for _, buf := range []int{1024, 2048, 4096} {
@@ -360,7 +371,7 @@ func main() {
 		scs = append(scs, rep.FailingCase.Scenario)
 	} else {
 		scs = corpus()
-		n, batch := 84, 36
+		n, batch := 92, 36
 		if tier == "thorough" {
 			n = 600
 		}
